@@ -14,6 +14,7 @@ class Prop:
     rule = ""               # how cases are generated / what counts as non-trivial
     deadline = 20.0
     extra_theorem_files = []  # other Properties/*.v whose obligations this property also relies on
+    translators = []          # models regenerated from the source on every run (core.TRANSLATORS) whose equivalence proofs are re-checked
 
     def cases(self, rng, tier):
         return []
@@ -114,6 +115,7 @@ def run_check(P, tier="quick", seed=0, max_search_s=None):
     lint_bad = core.lint()
     ok_build, build_log = core.build()
     pos = [core.proof_obligations(P.pid)] + [core.proof_obligations(x) for x in P.extra_theorem_files]
+    pos += [core.translator_obligation(t) for t in P.translators]
     po = pos[0]
     proof_ok = (not lint_bad) and ok_build and all(x["ok"] for x in pos)
     proof_problem = None
